@@ -204,8 +204,12 @@ def tensordot(a, b, axes=2, *, return_type=None):
         res = COO(
             np.empty((len(olda) + len(oldb), 0), dtype=np.uintp), data=np.empty(0, dtype=dt), shape=tuple(olda + oldb)
         )
-        if isinstance(a, np.ndarray) or isinstance(b, np.ndarray):
+        if return_type is None and (isinstance(a, np.ndarray) or isinstance(b, np.ndarray)):
+            return_type = np.ndarray
+        if return_type == np.ndarray:
             res = res.todense()
+        elif return_type == GCXS:
+            res = res.asformat("gcxs")
 
         return res
 
